@@ -101,7 +101,7 @@ def flow_params(rep, res, name, cfg):
     for o, stores in R.param_stores(res):
         for s in stores:
             v = s.d["val"].flat()
-            data = {d for d in v.data if not d.startswith("xsample@")}
+            data = {d for d in v.data if not d.startswith(("xsample@", "sol#", "par#"))}
             if "B" in data:
                 extra = data - {"B", "W", "K", "baseline", "l2_eps", "norm", "A", "lb", "ub", "L1", "l1_eps", "batch_size"}
                 # per-sample target/tolerance parameters
